@@ -1,4 +1,5 @@
 SPECIFICATION Spec
 CONSTANTS
   Family = "obs"
+  Repaired = TRUE
 CHECK_DEADLOCK FALSE
